@@ -8,6 +8,7 @@
 #ifndef PFCORRECTION_H
 #define PFCORRECTION_H
 
+#include <BayesFilters/AtomicFlag.h>
 #include <BayesFilters/LikelihoodModel.h>
 #include <BayesFilters/MeasurementModel.h>
 #include <BayesFilters/ParticleSet.h>
@@ -55,7 +56,7 @@ protected:
 
 
 private:
-    bool skip_ = false;
+    AtomicFlag skip_;
 };
 
 #endif /* PFCORRECTION_H */
